@@ -18,6 +18,14 @@ CHECKS = {
   "reference-codec monitor: strict independent RESP codec classifies every generated value, stream and single-point mutant; tool result compared value-for-value and byte-for-byte (offset)",
   "Random value trees and inline lines are round-tripped and decoded from LF-interleaved streams through 16/100/4096-byte bufio over 1-byte and odd-chunk readers, comparing values after the whole stream was consumed and the Decoder offset after every value with the bytes really consumed; for ~250 (quick) / 2500 (thorough) encodings <=200 bytes every delete/replace/insert position and truncation is classified by the reference as must-error / valid(value) / unclassified and compared with the tool. Stream decoding runs in child processes because the offset API aborts the process on error.",
   "Trusted: lib/refresp (strict RESP + the two documented leniencies). Lenient numeric forms (+5, 007) and huge lengths are skipped and counted.", "DESIGN.md §5/C10"),
+ "C11": ("fault_enumeration",
+  "fault enumeration, exhaustive per artefact: every single-byte substitution (255 values) at every position and every truncation of generated RDB files and of DUMP payloads emitted by the tool, run through the real verifiers; digests compared with a bitwise CRC-64/Jones reference",
+  "digest.New, the in-repo and the module crc64 are compared with a bitwise CRC-64/Jones over random strings and chunkings (1-byte, empty writes, Reset). For 16/160 generated RDB files (<=300 bytes, header versions 1-9) every position x 255 substitutes and every truncation must make Header..Footer fail and the intact file must verify; for 32/320 payloads produced by the loader every position x 255 substitutes, every truncation and every length 0..9 must be rejected by rdb.DecodeDump and CheckVersionChecksum, intact ones accepted with the reference CRC, and versions above the supported one with a recomputed valid CRC rejected. Exhaustive per artefact (about 0.5M RDB mutants and 1M payload checks in quick).",
+  "Trusted: lib/refcrc. RDB artefacts carry no aux/module-aux items (a corrupted aux length makes the loader copy gigabytes per mutant); a process crash on a corrupted artefact counts as rejection and is reported.", "DESIGN.md §5/C11"),
+ "C12": ("exploration",
+  "generator-by-construction oracle + round-trip monitor: logical values -> EncodeDump -> DecodeDump; rdbgen compact encodings -> real loader -> ObjEntry compared with the known logical value; NewEncoder files -> loader",
+  "(a) DecodeDump(EncodeDump(v)) == v with element order and bit-exact scores for strings at every int8/16/32 boundary (+ '-0', '+1', '007', ' 1'...), lengths at 63/64/16383/16384, 10k/200k scores over special and random float64 bit patterns, random values; each payload is also decoded by the independent reference; (b) every physical encoding (16 labels, coverage floor each) generated from a known logical value is parsed by the real loader and decoded through BinEntry.ObjEntry, then re-encoded; (c) rdb.NewEncoder files of (db,key,expiry,object) sequences are loaded back and the footer verified; the in-repo cupcake Encoder/Decoder pair.",
+  "Trusted: lib/rdbgen + lib/refrdb (self-tested each run). Zipmap item lengths < 253 only.", "DESIGN.md §5/C12"),
  "C13": ("exploration",
   "reference-model monitor: literal statement over an independent Redis key-spec table, exhaustive to a key-count bound",
   "Every command of the tool table x every valid arity up to 4 (quick) / 6 (thorough) keys x all 2^n pass/fail patterns x whitelist/blacklist is rewritten by the real filter and compared argv-for-argv with the literal statement evaluated over an independently typed key-spec table; plus checkpoint keys, commands outside the table, no-filter identity. Exhaustive to the bound.",
